@@ -62,7 +62,7 @@ def other_leaves(T):
 
 FIELDS = ["%%", "%a", "%b", "%c", "%f", "%g", "%G", "%h", "%H", "%i", "%k", "%m", "%n", "%p", "%P", "%s", "%S", "%t", "%u", "%U", "%y",
           "%{fid}", "%{projid}", "%{mirror-count}", "%{stripe-count}", "%{stripe-size}", "%{xattr:foo}", "%A@", "%C@", "%T@", "%AY", "%Ck", "%TH"]
-ESCAPES = ["\\n", "\\t", "\\a", "\\b", "\\r", "\\v", "\\0", "\\101", "\\c", "\\\\"]
+ESCAPES = ["\\n", "\\t", "\\a", "\\b", "\\r", "\\v", "\\0", "\\101", "\\\\"]        # \\c is refused by compile (C12)
 
 
 def format_leaves(T):
